@@ -408,8 +408,8 @@ def load(cfg):
     fx._moved = {}
     cur_keys = set(fx._raw)
     gone = [k for k in base["fns"] if CLOSURE_RX.search(k) and k not in cur_keys and k not in fx._alias and CLOSURE_RX.sub("", k) in cur_keys]
-    cands = [k for k in fx.new_fns if k in cur and not CLOSURE_RX.search(k[:-len("::{closure#0}")] if k.endswith("::{closure#0}") else k + "{closure#") and k in cur_keys] if False else \
-        [k for k in fx.new_fns if k in cur_keys and (not CLOSURE_RX.search(k) or (k.endswith("::{closure#0}") and not CLOSURE_RX.search(k[:-len("::{closure#0}")])))]
+    # candidates: new top-level functions and the coroutine body `f::{closure#0}` of a new top-level (async) function
+    cands = [k for k in fx.new_fns if k in cur_keys and (not CLOSURE_RX.search(k) or (k.endswith("::{closure#0}") and not CLOSURE_RX.search(k[:-len("::{closure#0}")])))]
     cs = snapshot(fx)["fns"]
     used = set()
     for g in sorted(gone):
